@@ -10,6 +10,8 @@ import SkaModel.DriverBase
 import SkaModel.DriverHist
 import SkaModel.DriverMap
 import SkaModel.DriverSkf
+import SkaModel.Impl.Reads
+import SkaModel.Spec.ReadsSpec
 
 namespace SkaModel.Driver
 
@@ -104,6 +106,23 @@ def runCase (c : Case) : String × String :=
     let m2 := buildDict (c.nat "w") (c.nat "k") (c.flag "rc") alt
     let sd := Spec.specDict (c.nat "k") (c.flag "rc") recs
     (s!"{showB m1} eq:{b2s (m1 == m2)}", s!"{if sd.isEmpty then "novalid" else showDict sd} eq:1")
+  | "reads" =>
+    -- reads are `SEQ:QUAL` with QUAL letters 'A' + phred
+    let parse (key : String) : List Read := (c.list key).filterMap (fun item =>
+      match item.splitOn ":" with
+      | [sq, q] => some { seq := (bytesOf sq).toArray, qual := ((bytesOf q).map (fun b => b - 65 + 33)).toArray }
+      | _ => none)
+    let f1 := parse "r1"
+    let f2 := parse "r2"
+    let qf := qualFilterOf c
+    let rule : Spec.QualRule := match qf with | .noFilter => .none | .middle => .middle | .strict => .strict
+    let m := match buildReads (c.nat "w") (c.nat "k") (c.flag "rc") (c.nat "mc") (c.nat "mq") qf f1 f2 with
+      | .dict d => showDict d
+      | .noValid => "novalid"
+      | .panicked => "panic:palindrome"
+    let sd := Spec.specReadsDict (c.nat "k") (c.flag "rc") rule (c.nat "mq") (c.nat "mc")
+      ((f1 ++ f2).map (fun r => (r.seq, r.qual)))
+    (m, if sd.isEmpty then "novalid" else showDict sd)
   | "skfdec" => runSkfdec c
   | "unframe" => runUnframe c
   | "map" => runMap c
